@@ -81,13 +81,19 @@ func useAccessors(s *interpreter.State) {
 }
 
 // scribble overwrites every byte of every stack copy handed to a debugger callback, spare capacity included
+var scribbleZero bool // the scribbling debugger writes zero bytes instead of flipping bits (truth values become false)
+
 func scribble(s *interpreter.State) {
 	for _, st := range [][][]byte{s.DataStack, s.AltStack, s.ElseStack, s.SavedFirstStack} {
 		for _, item := range st {
 			// up to the capacity: a debugger may append to what it was given (an empty item included)
 			full := item[:cap(item)]
 			for i := range full {
-				full[i] ^= 0xA5
+				if scribbleZero {
+					full[i] = 0
+				} else {
+					full[i] ^= 0xA5
+				}
 			}
 		}
 	}
@@ -273,6 +279,12 @@ func init() {
 		r0 := implExec(mustU(a[0], 32), append([]byte{}, u...), append([]byte{}, l...), "-", 0, 0, 0)
 		r1 := implExec(mustU(a[0], 32), append([]byte{}, u...), append([]byte{}, l...), "-", 0, 0, 1)
 		r2 := implExec(mustU(a[0], 32), append([]byte{}, u...), append([]byte{}, l...), "-", 0, 0, 2)
+		scribbleZero = true
+		r3 := implExec(mustU(a[0], 32), append([]byte{}, u...), append([]byte{}, l...), "-", 0, 0, 2)
+		scribbleZero = false
+		if r3.verdict != r2.verdict || strings.Join(r3.trace, "|") != strings.Join(r2.trace, "|") {
+			r2 = r3 // the zeroing scribbler changed something the bit-flipping one did not: report that run
+		}
 		same := b01(r0.verdict == r1.verdict && r1.verdict == r2.verdict && strings.Join(r1.trace, "|") == strings.Join(r2.trace, "|"))
 		return fmt.Sprintf("%s same=%s ev=%s t=%s", r1.verdict, same, compressEvents(r1.events), strings.Join(r2.trace, "|"))
 	}
